@@ -39,10 +39,12 @@ func (b *Buffer) Put(key, value []byte) {
 	b.mu.Lock()
 	defer b.mu.Unlock()
 
-	// Store in the operations map - skiplist handles defensive copying
+	// Copy key and value so later changes to the caller's slices cannot alter
+	// the buffered operation. A put always carries a non-nil (possibly empty)
+	// value; nil is reserved for deletes.
 	b.operations[string(key)] = &Operation{
-		Key:      key,
-		Value:    value,
+		Key:      append([]byte{}, key...),
+		Value:    append([]byte{}, value...),
 		IsDelete: false,
 	}
 }
@@ -52,9 +54,10 @@ func (b *Buffer) Delete(key []byte) {
 	b.mu.Lock()
 	defer b.mu.Unlock()
 
-	// Store in the operations map - skiplist handles defensive copying
+	// Copy the key so later changes to the caller's slice cannot alter the
+	// buffered operation.
 	b.operations[string(key)] = &Operation{
-		Key:      key,
+		Key:      append([]byte{}, key...),
 		Value:    nil,
 		IsDelete: true,
 	}
